@@ -14,6 +14,10 @@ streams of different identities, so that only the identity part of the cache key
 Family ``cache_model``: generated put/get sequences on ``_CallStateCache`` against a
 safety-only reference model (a hit must return the last object put under exactly that call id
 and caller identity, not older than the TTL, and at most ``capacity`` keys can hit).
+
+Continuations may present the stream's own call token altered by one character, or another stream's call token;
+those are judged by the warm/cold differential only.  A continuation without a call token is not generated
+(docs/WIRE_PROTOCOL.md documents that it works only while the cache is warm).
 """
 
 from __future__ import annotations
